@@ -1,3 +1,65 @@
-import PprofVerif.Model.Graph
+import PprofVerif.Lemmas.GraphTotal
+/-!
+# C04 — report flat, cum and edge values equal their definition over samples
+
+Property theorems only (helper lemmas live in `Lemmas/Graph*.lean`).  They are about the
+executable model `PV.Graph.newGraph` / `computeTotalWD` (`Model/Graph.lean`, mirroring
+internal/graph/graph.go `newGraph` and internal/report/report.go `computeTotal`) and the
+specification `PV.GSpec` (`Spec/Graph.lean`).  All statements hold for ALL sample lists, all key
+types with decidable equality (so for every granularity / noinlines / call_tree notion of entry
+identity), all values and divisors.  Every figure is a pair `WD = (Σ value, Σ divisor)`; the
+number shown is `WD.value` (Σ value / Σ divisor by Go's truncating division when mean is on).
+The correspondence check ties the model to the Go code on every run.
+-/
 namespace PV.Props.C04
+open PV PV.GSpec PV.Graph
+
+variable {κ : Type} [DecidableEq κ]
+
+/-- cum of an entry = Σ over the samples in which it occurs anywhere — a sample counted once even
+under recursion (the `seenNode` set) — both the value sum and the divisor sum. -/
+theorem graph_cum_eq_spec (ss : List (GSample κ)) (n : κ) :
+    (newGraph allKept ss).cum n = cumSpec ss n := by
+  rw [newGraph_cum, cumSpecK_allKept]
+
+/-- flat of an entry = Σ over the samples whose leaf frame is that entry. -/
+theorem graph_flat_eq_spec (ss : List (GSample κ)) (n : κ) :
+    (newGraph allKept ss).flat n = flatSpec ss n := by
+  rw [newGraph_flat, flatSpecK_allKept]
+
+/-- weight of the edge a→b = Σ over the samples in which `a` is immediately followed by `b`, each
+sample once (the `seenEdge` set); self edges have no weight. -/
+theorem graph_edge_eq_spec (ss : List (GSample κ)) (a b : κ) :
+    (newGraph allKept ss).weight a b = edgeSpec ss a b := by
+  rw [newGraph_weight, edgeSpecK_allKept]
+
+/-- an edge is present iff some counted sample (value or divisor non-zero) has that adjacency. -/
+theorem graph_edge_exists_iff (ss : List (GSample κ)) (a b : κ) :
+    (newGraph allKept ss).hasEdge a b = edgeExists ss a b := by
+  rw [newGraph_hasEdge, edgeExistsK_allKept]
+
+/-- no edge of an untrimmed graph is marked residual. -/
+theorem graph_no_residual (ss : List (GSample κ)) (a b : κ) :
+    (newGraph allKept ss).residual a b = false := by
+  rw [newGraph_residual, allKept_no_residual]
+
+/-- the report total: Σ |value| (Σ divisor), over the diff-base samples only when their Σ |value| > 0. -/
+theorem total_eq_spec (ss : List (GSample κ)) : computeTotalWD ss = totalSpec ss :=
+  PV.Graph.total_eq_spec ss
+
+/-- mean variants: the SHOWN numbers (value sum divided by divisor sum) agree with the specification. -/
+theorem mean_eq_spec (ss : List (GSample κ)) (n a b : κ) :
+    ((newGraph allKept ss).cum n).value = (cumSpec ss n).value ∧
+    ((newGraph allKept ss).flat n).value = (flatSpec ss n).value ∧
+    ((newGraph allKept ss).weight a b).value = (edgeSpec ss a b).value ∧
+    computeTotal ss = (totalSpec ss).value := by
+  rw [graph_cum_eq_spec, graph_flat_eq_spec, graph_edge_eq_spec]
+  exact ⟨rfl, rfl, rfl, by unfold computeTotal; rw [PV.Graph.total_eq_spec]⟩
+
+-- non-vacuity / sanity: direct recursion a→a→b, value 5: cum a = 5 (once), flat b = 5, edge a→b = 5, no self edge
+example : let ss : List (GSample Nat) := [{ frames := [1, 1, 2], w := 5, d := 1 }, { frames := [2, 1], w := -3, d := 1 }]
+    ((newGraph allKept ss).cum 1 = ⟨2, 2⟩ ∧ (newGraph allKept ss).flat 2 = ⟨5, 1⟩ ∧
+     (newGraph allKept ss).weight 1 2 = ⟨5, 1⟩ ∧ (newGraph allKept ss).weight 1 1 = 0 ∧
+     computeTotalWD ss = ⟨8, 2⟩) := by decide
+
 end PV.Props.C04
